@@ -892,9 +892,12 @@ def AA_4(dul: "DULServiceProvider") -> str:
     assoc = dul.assoc
     assoc.dimse.msg_queue.put((None, None))
 
-    remote = assoc.acceptor if assoc.is_requestor else assoc.requestor
-    conn_info = cast(AddressInformation, remote.address_info).as_tuple
-    evt.trigger(dul.assoc, evt.EVT_CONN_CLOSE, {"address": conn_info})
+    # In Sta4 the transport connection attempt failed: no connection was ever
+    #   opened (no EVT_CONN_OPEN), so there is no connection close to notify
+    if dul.state_machine.current_state != "Sta4":
+        remote = assoc.acceptor if assoc.is_requestor else assoc.requestor
+        conn_info = cast(AddressInformation, remote.address_info).as_tuple
+        evt.trigger(dul.assoc, evt.EVT_CONN_CLOSE, {"address": conn_info})
 
     # Issue A-P-ABORT indication primitive.
     primitive = A_P_ABORT()
